@@ -1911,22 +1911,24 @@ theorem issue_indices_in_tag (env : Env) (ph : Bool) (text : Str) (hst : LookupS
 
 /-! ### conforming annotations -/
 
-/-- Every rule predicate is false of the text.  For the character, parenthesis and slash rules the predicate is
-spelled out; for the others it is "the rule function reports no error on this tag / group / string".
-The definition dictionary is part of `env` (`env.defs`), so declared Def / Def-expand / Onset groups are covered.
-STILL EXCLUDED (not in the model): several schemas at once (`HedSchemaGroup`); a definition whose placeholder tag
-has neither unit nor value classes (the model answers `unmodelled`); dictionaries that `DefinitionDict` itself
-would reject (more than one placeholder tag, a value-taking definition without content). -/
+/-- **Every rule predicate is false of the text.**  One field per rule of `validate`, in the code's order.
+Characters, parentheses and slashes are spelled out on the text / tag text; each other field says that the rule's
+function reports no error-severity issue on this tag / group / string (warnings are allowed).  The fields of the
+tag-level phases are void for the text `n/a`, which the code sends from the string checks straight to the
+full-string checks.  The definition dictionary is part of `env`.
+Outside the model altogether (see `Validate.unmodelledP`, and the note in MANIFEST): several schemas at once;
+a Def value holding a character the extension rule rejects when the definition's placeholder tag has no unit or
+value class; dictionaries that `DefinitionDict` itself rejects. -/
 structure Clean (env : Env) (ph : Bool) (text : Str) : Prop where
   chars : ∀ c ∈ text, badChar env ph c = false
   parens : Paren.mismatch text = false
-  delim : delimIssues env.cd text = []
+  delim : errors (delimIssues env.cd text) = []
   slashes : ∀ t ∈ tagsList (parse env text).root0, slashMatches 0 0 t.org = []
-  tagChars : ∀ t ∈ tagsList (parse env text).root0, errors (tagCharIssues env ph t) = []
-  lookup : errors (parse env text).lookup = []
-  tags : ∀ g ∈ allGroups text.length (parse env text).root1, ∀ t ∈ directTags g.kids,
+  tagChars : NA env text = false → ∀ t ∈ tagsList (parse env text).root0, errors (tagCharIssues env ph t) = []
+  lookup : NA env text = false → errors (parse env text).lookup = []
+  tags : NA env text = false → ∀ g ∈ allGroups text.length (parse env text).root1, ∀ t ∈ directTags g.kids,
     errors (tagSemIssues env ph (isDefGroup env (parse env text).root1 g) t) = []
-  noDef : ∀ g ∈ allGroups text.length (parse env text).root1, errors (defIssuesOf env g.kids) = []
+  noDef : NA env text = false → ∀ g ∈ allGroups text.length (parse env text).root1, errors (defIssuesOf env g.kids) = []
   required : errors (requiredIssues env (tagsList ((parse env text).final env))) = []
   unique : errors (uniqueIssues env (tagsList ((parse env text).final env))) = []
   groups : ∀ g ∈ allGroups text.length ((parse env text).final env), errors (groupIssues env g) = []
@@ -1934,21 +1936,72 @@ structure Clean (env : Env) (ph : Bool) (text : Str) : Prop where
   duration : errors (durationIssues env ((parse env text).final env)) = []
   temporal : errors (onsetIssues env ((parse env text).final env)) = []
 
+theorem errors_append_nil {a b : List Issue} : errors (a ++ b) = [] ↔ errors a = [] ∧ errors b = [] := by
+  rw [errors_append, List.append_eq_nil_iff]
+
+theorem errors_flatMap_nil_iff {α} (l : List α) (f : α → List Issue) :
+    errors (l.flatMap f) = [] ↔ ∀ x ∈ l, errors (f x) = [] := by
+  induction l with
+  | nil => simp [errors]
+  | cons x xs ih =>
+    simp only [List.flatMap_cons, errors_append_nil, ih, List.mem_cons, forall_eq_or_imp]
+
+theorem errors_all_error {l : List Issue} (hall : ∀ x ∈ l, x.isError = true) (h : errors l = []) : l = [] := by
+  cases l with
+  | nil => rfl
+  | cons x xs =>
+    have : x ∈ errors (x :: xs) := by simp [errors, hall x (by simp)]
+    rw [h] at this; simp at this
+
+theorem charIssue_isError (n : Nat) (c : Char) : (charIssue n c).isError = true := by
+  cases h : (c == '~') <;> simp [charIssue, h, Issue.isError, Issue.plain] <;> decide
+
+theorem charIssuesFrom_errors (env : Env) (ph : Bool) :
+    ∀ (s : Str) (n : Nat), errors (charIssuesFrom env ph n s) = [] → ∀ c ∈ s, badChar env ph c = false := by
+  intro s
+  induction s with
+  | nil => intro _ _ c hc; simp at hc
+  | cons d ds ih =>
+    intro n h c hc
+    simp only [charIssuesFrom, errors_append_nil] at h
+    have hd : badChar env ph d = false := by
+      cases hb : badChar env ph d with
+      | false => rfl
+      | true =>
+        have h1 := h.1
+        simp only [hb, if_true] at h1
+        have := errors_all_error (l := [charIssue n d]) (by intro x hx; simp at hx; subst hx; exact charIssue_isError n d) h1
+        simp at this
+    simp only [List.mem_cons] at hc
+    cases hc with
+    | inl e => subst e; exact hd
+    | inr e => exact ih (n + 1) h.2 c e
+
+theorem slashIssues_errors (t : RTag) (h : errors (slashIssues t) = []) : slashMatches 0 0 t.org = [] := by
+  have := errors_all_error (l := slashIssues t) (by
+    intro x hx
+    simp only [slashIssues, List.mem_map] at hx
+    obtain ⟨m, _, rfl⟩ := hx
+    rfl) h
+  simpa [slashIssues] using this
+
 theorem clean_S {env : Env} {ph : Bool} {text : Str} (h : Clean env ph text) : errors (S env ph text) = [] := by
   simp only [S, stringIssues, stringPhase, errors_append, charIssues, parenIssues]
   rw [charIssuesFrom_nil env ph text 0 h.chars, h.parens, h.delim]
   rw [errors_flatMap_nil _ _ (fun t ht => by simp [slashIssues, h.slashes t ht, errors])]
   simp [errors]
 
-theorem clean_T {env : Env} {ph : Bool} {text : Str} (h : Clean env ph text) : errors (T env ph text) = [] := by
+theorem clean_T {env : Env} {ph : Bool} {text : Str} (h : Clean env ph text) (hna : NA env text = false) :
+    errors (T env ph text) = [] := by
   simp only [T, tagIssues, errors_append]
-  rw [errors_flatMap_nil _ _ h.tagChars, h.lookup]
+  rw [errors_flatMap_nil _ _ (h.tagChars hna), h.lookup hna]
   rfl
 
-theorem clean_M {env : Env} {ph : Bool} {text : Str} (h : Clean env ph text) : errors (M env ph text) = [] := by
+theorem clean_M {env : Env} {ph : Bool} {text : Str} (h : Clean env ph text) (hna : NA env text = false) :
+    errors (M env ph text) = [] := by
   simp only [M, semIssues, errors_append, individualPhase, defPhase]
-  rw [errors_flatMap_nil _ _ h.noDef]
-  rw [errors_flatMap_nil _ _ (fun g hg => errors_flatMap_nil _ _ (h.tags g hg))]
+  rw [errors_flatMap_nil _ _ (h.noDef hna)]
+  rw [errors_flatMap_nil _ _ (fun g hg => errors_flatMap_nil _ _ (h.tags hna g hg))]
   rfl
 
 theorem clean_F {env : Env} {ph : Bool} {text : Str} (h : Clean env ph text) : errors (F env text) = [] := by
@@ -1956,24 +2009,83 @@ theorem clean_F {env : Env} {ph : Bool} {text : Str} (h : Clean env ph text) : e
   rw [h.required, h.unique, errors_flatMap_nil _ _ h.groups, h.noRepeat, h.duration, h.temporal]
   rfl
 
-/-- Conforming annotation (every rule predicate false, declared definitions used correctly included) ⇒ no
-error-severity issue.  Still partial: see the exclusions listed at `Clean`. -/
-theorem valid_no_error_partial (env : Env) (ph : Bool) (text : Str) (h : Clean env ph text) :
+/-- **Rule-conforming ⇒ no error.**  If every rule predicate is false of the text (`Clean`), `validate` reports no
+error-severity issue — for every schema / dictionary / placeholder mode / text, without further hypothesis. -/
+theorem valid_no_error (env : Env) (ph : Bool) (text : Str) (h : Clean env ph text) :
     errors (validate env ph text) = [] := by
   rw [phase_structure]
   have hS := clean_S h
-  have hT := clean_T h
-  have hM := clean_M h
   have hF := clean_F (ph := ph) h
   split
   · exact hS
   · split
     · simp [errors_append, hS, hF]
-    · split
+    · rename_i hna
+      have hna' : NA env text = false := by simpa using hna
+      have hT := clean_T h hna'
+      have hM := clean_M h hna'
+      split
       · simp [errors_append, hS, hT]
       · split
         · simp [errors_append, hS, hT, hM]
         · simp [errors_append, hS, hT, hM, hF]
+
+theorem hasError_of_errors {l : List Issue} (h : hasError l = true) : errors l ≠ [] := by
+  intro e
+  have := hasError_false_of_errors_nil e
+  rw [h] at this; cases this
+
+/-- **No error ⇒ every modelled rule predicate is false.**  The converse: the short-circuits hide nothing — when
+`validate` reports no error, every phase ran (or the text is `n/a`) and each rule was silent. -/
+theorem no_error_implies_clean (env : Env) (ph : Bool) (text : Str) (h : errors (validate env ph text) = []) :
+    Clean env ph text := by
+  rw [phase_structure] at h
+  have hSF : errors (S env ph text) = [] ∧ errors (F env text) = [] ∧
+      (NA env text = false → errors (T env ph text) = [] ∧ errors (M env ph text) = []) := by
+    split at h
+    · rename_i h1; exact absurd h (hasError_of_errors h1)
+    · split at h
+      · rename_i hna
+        rw [errors_append_nil] at h
+        exact ⟨h.1, h.2, fun e => by rw [e] at hna; cases hna⟩
+      · split at h
+        · rename_i h3; exact absurd h (hasError_of_errors h3)
+        · split at h
+          · rename_i h4; exact absurd h (hasError_of_errors h4)
+          · simp only [errors_append_nil] at h
+            exact ⟨h.1.1.1, h.2, fun _ => ⟨h.1.1.2, h.1.2⟩⟩
+  obtain ⟨hS, hF, hTM⟩ := hSF
+  simp only [S, stringIssues, stringPhase, charIssues, errors_append_nil, errors_flatMap_nil_iff] at hS
+  simp only [F, fullIssues, fullPhase, errors_append_nil, errors_flatMap_nil_iff] at hF
+  refine ⟨charIssuesFrom_errors env ph text 0 hS.1.1.1, ?_, hS.1.2, fun t ht => slashIssues_errors t (hS.2 t ht),
+    fun hna => ?_, fun hna => ?_, fun hna => ?_, fun hna => ?_,
+    hF.1.1.1.1.1, hF.1.1.1.1.2, hF.1.1.1.2, hF.1.1.2, hF.1.2, hF.2⟩
+  · cases hm : Paren.mismatch text with
+    | false => rfl
+    | true =>
+      have := hS.1.1.2
+      simp only [parenIssues, hm, if_true] at this
+      have := errors_all_error (l := [({ Issue.plain .parentheses with sub := some (text.count '(', text.count ')') } : Issue)])
+        (by intro x hx; simp at hx; subst hx; rfl) this
+      simp at this
+  · have := (hTM hna).1
+    simp only [T, tagIssues, errors_append_nil, errors_flatMap_nil_iff] at this
+    exact this.1
+  · have := (hTM hna).1
+    simp only [T, tagIssues, errors_append_nil] at this
+    exact this.2
+  · have := (hTM hna).2
+    simp only [M, semIssues, individualPhase, errors_append_nil, errors_flatMap_nil_iff] at this
+    exact this.1
+  · have := (hTM hna).2
+    simp only [M, semIssues, defPhase, errors_append_nil, errors_flatMap_nil_iff] at this
+    exact this.2
+
+/-- **The verdict, for the modelled fragment:** `validate` reports no error exactly when every rule predicate is
+false of the text. -/
+theorem no_error_iff_clean (env : Env) (ph : Bool) (text : Str) :
+    errors (validate env ph text) = [] ↔ Clean env ph text :=
+  ⟨no_error_implies_clean env ph text, valid_no_error env ph text⟩
 
 end HedVerif.C01
 
@@ -2009,6 +2121,17 @@ example : (∀ c ∈ conf, badChar env false c = false) ∧ Paren.mismatch conf 
   decide +kernel
 example : Clean env false red := by
   constructor <;> decide +kernel
+/-- a nested annotation with an extension and a value satisfies every rule predicate … -/
+example : Clean env false conf := by
+  constructor <;> decide +kernel
+/-- … `n/a` does too (its tag-level fields are void), and an unknown tag does not -/
+example : Clean env false ['n','/','a'] := by
+  constructor <;> decide +kernel
+example : ¬ Clean env false ['R','e','d',',','Z','z'] := by
+  intro h
+  have := valid_no_error env false _ h
+  revert this
+  decide +kernel
 
 /-- each injection kind fires on a concrete text (the hypotheses of the `injected_k` theorems are satisfiable) -/
 example : Spec.codeOf .unknownTag ∈ codes (errors (validate env false ['R','e','d',',','Z','z'])) := by decide +kernel
@@ -2064,6 +2187,10 @@ theorem def_value_index_counterexample :
 example : LookupStable env conf := by unfold LookupStable; decide +kernel
 example : LookupStable envD ['(','D','e','f','-','e','x','p','a','n','d','/','A',',','(','R','e','d',')',')'] := by
   unfold LookupStable; decide +kernel
+
+/-- correct use of declared definitions satisfies `Clean` (so the iff is not vacuous with a dictionary) -/
+example : Clean envD false ['(','D','e','f','-','e','x','p','a','n','d','/','A',',','(','R','e','d',')',')',',','D','e','f','/','P','/','x'] := by
+  constructor <;> decide +kernel
 
 /-- correct use of declared definitions reports no error; the two new injection kinds fire -/
 example : errors (validate envD false
